@@ -313,7 +313,12 @@ def run(scn):
         if h1.solution is not None and h2.solution is not None and not V:
             K1 = h1.solution.current_density.to("A/m").magnitude
             K2 = h2.solution.current_density.to("A/m").magnitude
-            ref = float(np.max(np.abs(K1), initial=0.0))
+            # "to rounding": the scale of rounding errors is set by the largest currents the run went
+            # through, not by what is left of them in the last frame (after a field pulse the final
+            # currents can be 1e-6 of the peak, and 1e-17 of absolute rounding noise is 1e-5 of them)
+            peakJ = max([float(np.max(np.abs(u_["out"]["supercurrent"]), initial=0.0)) + float(np.max(np.abs(u_["out"]["normal_current"]), initial=0.0)) for u_ in t1] or [0.0])
+            K_peak = float(get_ctx(sim1).scales.K0) * peakJ
+            ref = max(float(np.max(np.abs(K1), initial=0.0)), K_peak)
             d = float(np.max(np.abs(K1 - K2), initial=0.0))
             Jlast = np.abs(np.asarray(h1.solution.tdgl_data.supercurrent)) + np.abs(np.asarray(h1.solution.tdgl_data.normal_current))
             if d > 1e-6 * ref + 1e-300 and float(np.max(Jlast, initial=0.0)) > 1e-9:
@@ -341,13 +346,13 @@ def run(scn):
                         outs = None
                         break
                     outs.append((Ka, B1, B2, Kb))
-                    refB = float(np.max(np.abs(B1), initial=0.0)) + 1e-300
-                    refK = float(np.max(np.abs(Ka), initial=0.0)) + 1e-300
+                    refB = max(float(np.max(np.abs(B1), initial=0.0)), si.MU0 * K_peak) + 1e-300
+                    refK = max(float(np.max(np.abs(Ka), initial=0.0)), K_peak) + 1e-300
                     if float(np.max(np.abs(B1 - B2))) > 1e-9 * refB or float(np.max(np.abs(Ka - Kb))) > 1e-9 * refK:
                         V.append(Violation("output-history", f"repeating Solution.field_at_position / current_density on the same Solution ({c_.lu}, {c_.fu}, {c_.cu}) gives different values: field {float(np.max(np.abs(B1 - B2))) / refB:.3g}, current density {float(np.max(np.abs(Ka - Kb))) / refK:.3g} relative", **where))
                         break
                 if outs and len(outs) == 2 and not V:
-                    refB = float(np.max(np.abs(outs[0][1]), initial=0.0)) + 1e-300
+                    refB = max(float(np.max(np.abs(outs[0][1]), initial=0.0)), si.MU0 * K_peak) + 1e-300
                     dB = float(np.max(np.abs(outs[0][1] - outs[1][1])))
                     if dB > 1e-6 * refB:
                         V.append(Violation("physical-output", f"Solution.field_at_position in T at the same physical points differs by {dB / refB:.3g} relative between the unit systems", **where))
